@@ -29,6 +29,7 @@ import OrbProofs.C02Total
 import OrbProofs.C02Typed
 import OrbProofs.C02Nil
 import OrbProofs.C02Recv
+import OrbProofs.C02Hook
 
 namespace Orb.GeoJSON
 
@@ -297,6 +298,28 @@ theorem fc_receiver_history (c : Codec) (rawNull : Bool) (old old' : FC) (j : Js
 theorem typed_receiver_history (c : Codec) (k : Kind) (old old' : V) (j : Json)
     (h : (typedOfDoc c k j).isOk = true) : typedInto c k old j = typedInto c k old' j :=
   typed_receiver_history' c k old old' j h
+
+/-! ### the documented JSON hooks (`geojson.CustomJSONMarshaler` / `CustomJSONUnmarshaler`)
+
+The correspondence run installs pass-through hooks and counts their calls per step of a case (op
+`hook`); `hookMG` / `hookUG` are what the dispatch of geojson/json.go prescribes for a value. -/
+
+/-- the marshal hook is reached exactly when something other than `null` is written (the `null`
+    short cut of `Geometry.MarshalJSON` is the only path around `marshalJSON`) -/
+theorem hook_marshal_reached (c : Codec) (n : NG) : hookMG n = 0 ↔ geomMemberN c n = .null :=
+  hookMG_zero_iff' c n
+
+/-- … and what was written through the marshal hook — only that — is read through the unmarshal hook -/
+theorem hook_unmarshal_reached (n : NG) : hookUG n = 0 ↔ hookMG n = 0 := hookUG_zero_iff' n
+
+/-- reading calls the hook at least as often as writing and at most twice as often -/
+theorem hook_calls_bounds (n : NG) : hookMG n ≤ hookUG n ∧ hookUG n ≤ 2 * hookMG n := hookUG_bounds' n
+
+/-- a collection of a point and a nested collection of a line: 4 marshal calls, 6 unmarshal calls -/
+example :
+    let n : NG := .collection [.point ⟨0, 0⟩, .collection [.lineString (some [⟨0, 0⟩])]]
+    hookMG n = 4 ∧ hookUG n = 6 := by
+  constructor <;> simp [hookMG, hookMGs, hookUG, hookUGs]
 
 /-- a feature with a null geometry decoded into a receiver that holds a point: no geometry afterwards -/
 example :
